@@ -139,3 +139,18 @@ Theorem C11_buffer_edge_only_delegates :
   SrcFragments.Buffer_reserve_get_cancel_delegates = true.
 Proof. repeat split. Qed.
 Print Assumptions C11_buffer_edge_only_delegates.
+
+(* tie B: "queries": can_put / can_get / occupancy / the list accessors and the statistics refreshes of both edge classes only
+   observe the store -- nothing but the level statistics is assigned, no list of the store (or a local name bound to one) is
+   updated in place (re-translated from edges/buffer.py and edges/fleet.py on every run) *)
+Theorem C11_queries_only_observe :
+  (SrcFragments.Buffer_can_put_observes = true /\ SrcFragments.Buffer_can_get_observes = true /\
+   SrcFragments.Buffer_occupancy_observes = true /\ SrcFragments.Buffer_ready_items_observes = true /\
+   SrcFragments.Buffer_items_observes = true /\ SrcFragments.Buffer_update_final_buffer_avg_content_observes = true /\
+   SrcFragments.Buffer_buffer_stats_collector_observes = true) /\
+  (SrcFragments.Fleet_can_put_observes = true /\ SrcFragments.Fleet_can_get_observes = true /\
+   SrcFragments.Fleet_get_occupancy_observes = true /\ SrcFragments.Fleet_get_ready_items_observes = true /\
+   SrcFragments.Fleet_get_items_observes = true /\ SrcFragments.Fleet_update_final_fleet_avg_content_observes = true /\
+   SrcFragments.Fleet_fleet_stats_collector_observes = true).
+Proof. exact (conj TieNodes.buffer_observers_src TieNodes.fleet_observers_src). Qed.
+Print Assumptions C11_queries_only_observe.
